@@ -693,7 +693,13 @@ def run_property(prop, tier, seed, only=None, list_only=False, jobs=10, write_ev
     extra_ev = {}
     if extra:
         for fn in extra:
-            ev = fn(prop, tier, seed)
+            try:
+                ev = fn(prop, tier, seed)
+            except Exception as e:  # noqa - an engine that dies (tool time-out, missing file) decides nothing: inconclusive, never a crash
+                import traceback
+                log(traceback.format_exc()[-1500:])
+                problems.append('engine part %s died: %r' % (getattr(fn, '__name__', '?'), e))
+                continue
             if ev['engine'] in extra_ev:
                 # two parts of the same engine (e.g. engine M: print arm + string filters): keep both coverages
                 prev = extra_ev[ev['engine']]
